@@ -1,6 +1,7 @@
 //! C02 / C15: rate limiter. script = [wtype (0 fixed,1 sliding log,2 sliding counter), limit, period_ms,
 //! timeout_ms, n, (op a b)*]; op 1 Poll a | 2 Drop a | 3 Advance a ms | 4 Complete a b (0 ok 1 err 2 panic)
-//! trace per event = [r, started, in-flight, wake mask]
+//! trace per event = [r, started (number of inner call()s made during the poll), in-flight, wake mask]
+//! op 5 = create caller a's call future (call()) without polling it
 use std::time::Duration;
 use tower::{Layer, Service};
 use tower_resilience_ratelimiter::{RateLimiterLayer, RateLimiterServiceError, WindowType};
@@ -55,7 +56,7 @@ fn run(s: &[i128]) -> Vec<i128> {
                                     Err(RateLimiterServiceError::RateLimited) => 3,
                                 }
                             };
-                            if !sh.take_starts().is_empty() { started = 1; }
+                            started = sh.take_starts().len() as i128; // number of inner call()s made during this poll
                         }
                     } else {
                         m.drop_fut();
